@@ -126,8 +126,20 @@ def run(ctx):
                 kf = "F30"
         return small, note, kf
 
-    def compare(cfg, ops, stream):
-        real, notes = H.run_real(cfg, ops)
+    def schedule_invariant(cfg, ops):
+        """the executed event order does not depend on when the link layer reports the pairs,
+        except for a non-sequential context block of several pairs on multi-comm hardware (the
+        pairs have different destination ids, so all of them may arrive before the first body)"""
+        single = cfg["nv"] or cfg["transp"] or cfg["maxq"] == 1
+        return not any(o["k"] == "ctx" and not o["sequential"] and o["n"] >= 2 and not single for o in ops)
+
+    def compare(cfg, ops, stream, schedule="lazy"):
+        real, notes = H.run_real(cfg, ops, schedule=schedule)
+        res.count("schedule:" + schedule)
+        if schedule != "lazy" and not schedule_invariant(cfg, ops):
+            res.evaluations += 1
+            res.count("schedule:oracle-only (event order depends on the schedule)")
+            return real, notes
         model = H.canon_model(ctx.driver.call({"op": "qm.run", **cfg, "ops": ops})["snaps"])
         res.evaluations += 1
         for o in ops:
@@ -172,8 +184,9 @@ def run(ctx):
                 cfg["nv"] = True  # transpiler with an explicit NV config, or forcing it
         ops = H.random_ops(rng, cfg, rng.randint(1, 14), loops=rng.random() < 0.5,
                            over_budget=rng.random() < 0.12)
-        real, notes = compare(cfg, ops, "qm.random")
-        oracle(cfg, ops, notes)
+        schedule = rng.choice(["lazy", "lazy", "eager", "burst"])
+        real, notes = compare(cfg, ops, "qm.random", schedule)
+        oracle(cfg, ops, notes, schedule=schedule)
         if len(res.samples) < 6 and it % 53 == 0:
             res.samples.append({"cfg": cfg, "ops": ops, "last": real[-1] if real else None})
 
@@ -193,6 +206,7 @@ def run(ctx):
 def replay(ctx, payload):
     from harness import qubits as H
     inp = payload["failure"]["input"]
-    snaps, notes = H.run_real(inp["cfg"], inp["ops"], bell=inp.get("bell", 0))
+    snaps, notes = H.run_real(inp["cfg"], inp["ops"], bell=inp.get("bell", 0),
+                              schedule=inp.get("schedule", "lazy"))
     print(json.dumps({"snapshots": snaps, "oracle": notes}, indent=1))
     return 1 if notes else 0
